@@ -173,8 +173,14 @@ class ModbusSocketFramer(ModbusFramer):
         Process incoming packets irrespective error condition
         """
         data = self.getRawFrame() if error else self.getFrame()
-        result = self.decoder.decode(data)
+        try:
+            result = self.decoder.decode(data)
+        except Exception:
+            # do not look at a frame that cannot be decoded again
+            self.advanceFrame()
+            raise
         if result is None:
+            self.advanceFrame()
             raise ModbusIOException("Unable to decode request")
         elif error and result.function_code < 0x80:
             raise InvalidMessageReceivedException(result)
